@@ -2,7 +2,7 @@
 From Coq Require Import ZArith Reals List Sorted Lra Lia.
 From Flocq Require Import Core.Raux.
 From EG Require Import Num.Num Num.RNum Num.FNum Num.FloatOrder Model.TolMap Model.Series.
-From EG Require Import Proofs.TolMap Proofs.Series Proofs.SeriesFloat.
+From EG Require Import Proofs.TolMap Proofs.Series Proofs.SeriesFloat Proofs.SeriesSlice.
 Import ListNotations.
 Local Open Scope R_scope.
 
@@ -112,6 +112,31 @@ Theorem C17_index_of : forall (first : R) (rest : list R) (x : R),
                  forall j w, (i < j)%nat -> nth_error (first :: rest) j = Some w -> x < w).
 Proof. exact index_of_spec. Qed.
 Print Assumptions C17_index_of.
+
+(* a slice (Series1::between) of a series with strictly increasing abscissae, requested inside the domain: it exists,
+   its ends are exactly the requested bounds, its abscissae are strictly increasing with as many ordinates, and it
+   evaluates to the same values as its parent everywhere on [x0, x1] *)
+Theorem C17_slice : forall (xs ys : list R),
+  strictly_increasing xs -> length ys = length xs -> xs <> [] -> forall (x0 x1 : R),
+  nth 0 xs 0 <= x0 -> x0 < x1 -> x1 <= last xs 0 ->
+  exists X Y, @s_between RNum (xs, ys) x0 x1 = Ok (X, Y) /\
+    nth 0 X 0 = x0 /\ last X 0 = x1 /\ strictly_increasing X /\ length Y = length X /\
+    forall x, x0 <= x <= x1 -> @s_interpolate RNum (X, Y) x = @s_interpolate RNum (xs, ys) x.
+Proof. exact between_ok. Qed.
+Print Assumptions C17_slice.
+
+(* splitting strictly inside the domain: both pieces exist, meet at x, keep the outer ends, evaluate like the parent
+   on their intervals, and their areas add up to the area of the whole *)
+Theorem C17_split : forall (xs ys : list R),
+  strictly_increasing xs -> length ys = length xs -> xs <> [] -> forall (x : R), nth 0 xs 0 < x -> x < last xs 0 ->
+  exists XL YL XR YR,
+    @s_split_at_x RNum (xs, ys) x = Ok (Some (XL, YL), Some (XR, YR)) /\
+    nth 0 XL 0 = nth 0 xs 0 /\ last XL 0 = x /\ nth 0 XR 0 = x /\ last XR 0 = last xs 0 /\
+    (forall t, nth 0 xs 0 <= t <= x -> @s_interpolate RNum (XL, YL) t = @s_interpolate RNum (xs, ys) t) /\
+    (forall t, x <= t <= last xs 0 -> @s_interpolate RNum (XR, YR) t = @s_interpolate RNum (xs, ys) t) /\
+    @s_area_under RNum (XL, YL) + @s_area_under RNum (XR, YR) = @s_area_under RNum (xs, ys).
+Proof. exact split_area. Qed.
+Print Assumptions C17_split.
 
 Example C17_nonvacuous : StronglySorted Rle [0; 1; 1; 3] /\ strictly_increasing [0; 1; 3].
 Proof.
